@@ -13,9 +13,9 @@ verify)
   git apply OUT/patch.diff || { echo "patch does not apply"; exit 1; }
   echo "== suite with change"; cargo test --workspace --offline 2>&1 | grep -E "^test result|FAILED|^error" | head -8
   cp OUT/demo.rs microscpi/tests/demo.rs
-  echo "== demo with change (must fail)"; cargo test -p microscpi --offline --test demo 2>&1 | grep -E "^test result|^test .* (ok|FAILED)" | head -12
+  echo "== demo with change (must fail)"; cargo test -p microscpi --features std --offline --test demo 2>&1 | grep -E "^test result|^test .* (ok|FAILED)" | head -12
   git apply -R OUT/patch.diff
-  echo "== demo without change (must pass)"; cargo test -p microscpi --offline --test demo 2>&1 | grep -E "^test result|^test .* (ok|FAILED)" | head -12
+  echo "== demo without change (must pass)"; cargo test -p microscpi --features std --offline --test demo 2>&1 | grep -E "^test result|^test .* (ok|FAILED)" | head -12
   rm -f microscpi/tests/demo.rs
   mkdir -p $out && cp OUT/patch.diff OUT/demo.rs $out/ && cp OUT/meta.json $out/meta.agent.json
   ;;
